@@ -134,6 +134,32 @@ def r1_sequencing_sound_combination(ctx):
                     ctx.ob("C02.R1", f"{GEN}::{fn.name}::manual merge loop over `{P.un(l.iter)}`", GEN, l.lineno, False,
                            "the loop appends every child's dependency statements to one list and every child's value to another: an earlier value is evaluated after a later child's statements",
                            witness="(f ** :a (t 1) :b (if (t 2) 3 4)) evaluates 2 before 1")
+    # ... and the same merge written without a loop: the dependency lists of two separately generated
+    # children concatenated in one chain(...) -- the first child's value is then evaluated after the
+    # second child's statements (type-hint `tag` children are class references and exempt)
+    for fn in P.all_defs(tree):
+        if P.enclosing_func(fn) is not None or fn.name in ("_chain_py_ast",):
+            continue
+        gens = {a.targets[0].id for a in ast.walk(fn) if isinstance(a, ast.Assign) and isinstance(a.value, ast.Call) and isinstance(a.targets[0], ast.Name)
+                and (P.un(a.value.func) == "gen_py_ast" or P.un(a.value.func).endswith("_to_py_ast"))}
+        gens |= {n.target.id for n in ast.walk(fn) if isinstance(n, ast.NamedExpr) and isinstance(n.value, ast.Call) and P.un(n.value.func) == "gen_py_ast"}
+        alias = {a.targets[0].id: a.value.value.id for a in ast.walk(fn) if isinstance(a, ast.Assign) and isinstance(a.targets[0], ast.Name) and isinstance(a.value, ast.Attribute)
+                 and a.value.attr == "dependencies" and isinstance(a.value.value, ast.Name) and a.value.value.id in gens}
+        for c in ast.walk(fn):
+            if not (isinstance(c, ast.Call) and P.un(c.func) in ("chain", "itertools.chain")):
+                continue
+            srcs = []
+            for a in c.args:
+                for x in ast.walk(a):
+                    if isinstance(x, ast.Attribute) and x.attr == "dependencies" and isinstance(x.value, ast.Name) and x.value.id in gens:
+                        srcs.append(x.value.id)
+                    if isinstance(x, ast.Name) and x.id in alias:
+                        srcs.append(alias[x.id])
+            srcs = [s for s in dict.fromkeys(srcs) if "tag" not in s]
+            if len(srcs) >= 2:
+                ctx.ob("C02.R1", f"{GEN}::{fn.name}::dependencies of {srcs} concatenated by hand", GEN, c.lineno, False,
+                       f"the statements of `{srcs[1]}` are emitted before the expression that uses `{srcs[0]}.node`: the first child is evaluated after the second child's effects whenever the second is a compound form",
+                       witness="(throw (python/ValueError (t 1)) (if (t 2) (python/KeyError (t 3)) nil)) evaluates 2, 3, 1")
     # handlers with a separately generated head and a chained tail must chain the head too
     for name, head in (("_invoke_to_py_ast", "fn_ast"), ("_interop_call_to_py_ast", "target_ast")):
         fn = ctx.fn(GEN, name)
@@ -807,6 +833,8 @@ def r10_core_macros_evaluate_their_operands_once(ctx):
 
 
 SELFTEST = [
+    {"name": "throw merges the statements of exception and cause by hand (the repaired defect)", "file": GEN, "expect": "C02.R1",
+     "old": "        deps, (exc, cause) = _chain_py_ast(exc_ast, cause_ast)\n", "new": "        deps, exc, cause = list(chain(exc_ast.dependencies, cause_ast.dependencies)), exc_ast.node, cause_ast.node\n"},
     {"name": "set! places its value twice in expression position (the repaired defect)", "file": GEN, "expect": "C02.R9",
      "old": "        assign_ast = [ast.Assign(targets=[target_ast.node], value=val_node)]\n    elif isinstance(target, VarRef):",
      "new": "        assign_ast = [ast.Assign(targets=[target_ast.node], value=val_ast.node)]\n    elif isinstance(target, VarRef):"},
